@@ -18,13 +18,14 @@ fn strat(b: u8) -> Strat {
 fn decode_history(u: &mut Unstructured) -> History {
     let final_strat = strat(u.arbitrary::<u8>().unwrap_or(0));
     let mut reqs = vec![];
-    while !u.is_empty() && reqs.len() < 64 {
-        let op = u.arbitrary::<u8>().unwrap_or(0) % 9;
+    while !u.is_empty() && reqs.len() < 160 {
+        let op = u.arbitrary::<u8>().unwrap_or(0) % 10;
         match op {
+            9 => reqs.push(Req::RemoveBurst { sel: u.arbitrary::<u16>().unwrap_or(0), count: 2 + u.arbitrary::<u8>().unwrap_or(0) % 40 }),
             0..=4 => {
                 let b = u.arbitrary::<u8>().unwrap_or(0);
                 let c = u.arbitrary::<u8>().unwrap_or(0);
-                let align = 1usize << (b % 5);
+                let align = 1usize << (b % 8);
                 let k = ((b >> 3) % 8) as usize;
                 reqs.push(Req::Add {
                     size: k * align,
